@@ -203,6 +203,25 @@ def _check_case(case, res, count=True):
                 g.remove_node(g.nodes[case['remove_node'] % (len(g.nodes) - 1)])      # ids are no longer 0..n-1
                 if count:
                     res.count('class:attack-graph-with-id-gap')
+            if case.get('ag_attackers') is not None and g.nodes:
+                # several attackers whose compromises interleave: a step lists them in the order they arrived
+                import random
+                from maltoolbox.attackgraph import Attacker
+                arng = random.Random(case['ag_attackers'])
+                atts = []
+                for nm in arng.sample(['alice', 'bob', 'carol', 'dave'], arng.randint(2, 4)):
+                    t = Attacker(name=nm, entry_points=[], reached_attack_steps=[])
+                    g.add_attacker(t)
+                    atts.append(t)
+                for _ in range(arng.randint(3, 25)):
+                    t = arng.choice(atts)
+                    n = g.nodes[arng.randrange(min(len(g.nodes), 6))]
+                    if arng.random() < 0.75:
+                        t.compromise(n)
+                    else:
+                        t.undo_compromise(n) if n in t.reached_attack_steps else None
+                if count and any([a.id for a in n.compromised_by] != sorted(a.id for a in n.compromised_by) for n in g.nodes):
+                    res.count('class:step-compromised-by-attackers-out-of-registration-order')
             store2 = fakeneo.Store()
             neo.Graph = fakeneo.make_graph_class(store2)
             names = [n.full_name for n in g.nodes]
@@ -236,6 +255,7 @@ def run(rng, res, tier, shard, nshards):
         case = gen_case(rng, Cfg(max_assets=6, max_assocs=6, max_depth=1, dup_assoc_names=0.5, inherit_bias=0.75, shared_field_names=0.35),
                         MCfg(max_assets=7, attackers=0.0, hostile_names=0.1, explicit_ids=0.4, self_links=0.2), corelang_share=0.08)
         case['with_graph'] = rng.random() < 0.35
+        case['ag_attackers'] = rng.randrange(10 ** 9) if rng.random() < 0.5 else None
         case['remove_node'] = rng.randrange(1000) if rng.random() < 0.5 else None
         f = check_case(case, res)
         am = case['amodel']
